@@ -1,0 +1,163 @@
+//go:build verif
+
+// Contracts checked by /verif/govc (comment-only file; see /verif/DESIGN.md, property C24).
+package formatutil
+
+//@ # A statement is a non-empty run of words with positions in [lo, hi], its first word not after its last; the last
+//@ # word of a statement is not after the first word of the next (positions come from successive Scan calls).
+//@ pred stmtOK(st aStmt, lo int, hi int) := len(st.words) > 0 && 0 <= st.at && st.at < len(st.words) &&
+//@        (forall k in 0..len(st.words) :: lo <= int(st.words[k].pos) && int(st.words[k].pos) <= hi) &&
+//@        int(st.words[0].pos) <= int(st.words[len(st.words)-1].pos)
+//@ pred stmtsOK(ss []aStmt, lo int, hi int) := (forall k in 0..len(ss) :: stmtOK(ss[k], lo, hi)) &&
+//@        (forall k in 1..len(ss) :: int(ss[k-1].words[len(ss[k-1].words)-1].pos) <= int(ss[k].words[0].pos))
+//@
+//@ func tokOf
+//@   requires len(words) > 0
+//@   assigns nothing
+//@   ensures 0 <= at && at < len(words) && tok == words[at].tok
+//@
+//@ func startWith
+//@   assigns nothing
+//@   ensures result ==> len(words) > 0
+//@ func seekAfter
+//@   assigns nothing
+//@   ensures len(result) <= len(words)
+//@ func isFuncDecl
+//@   assigns nothing
+//@
+//@ # isFD names the classification computed by isFuncDecl (a function of the statement's words)
+//@ ufunc isFD(st aStmt) bool
+//@ func (aStmt).isFuncDecl
+//@   requires len(s.words) > 0 && 0 <= s.at && s.at < len(s.words)
+//@   assigns nothing
+//@   ensures [call.class] result == isFD(s)
+//@ ufunc isD(st aStmt) bool
+//@ func (aStmt).isDecl
+//@   requires len(s.words) > 0 && 0 <= s.at && s.at < len(s.words)
+//@   assigns nothing
+//@   ensures [call.class] result == isD(s)
+//@
+//@ func firstNonDecl
+//@   requires forall k in 0..len(stmts) :: len(stmts[k].words) > 0 && 0 <= stmts[k].at && stmts[k].at < len(stmts[k].words)
+//@   assigns nothing
+//@   ensures -1 <= result && result < len(stmts)
+//@   ensures [first] result >= 0 ==> !isD(stmts[result])
+//@   ensures [decls-before] forall k in 0..(result < 0 ? len(stmts) : result) :: isD(stmts[k])
+//@ loop firstNonDecl#1
+//@   invariant forall k in 0..rangeindex+1 :: isD(stmts[k])
+//@
+//@ func codeOf
+//@   requires 0 <= i && i < len(rest) && stmtsOK(rest, base, base + len(src))
+//@   assigns nothing
+//@   ensures [chunk] result == src[int(rest[i].words[0].pos) - base : (i == len(rest)-1 ? len(src) : int(rest[i+1].words[0].pos) - base)]
+//@
+//@ spec lowWater(s *scanner.Scanner) int := fileBase(s.file) + s.offset - len(s.unitVal)
+//@ func splitStmts
+//@   requires scanner.inv(s) && fileSize(s.file) == len(s.src) && scanner.unitOK(s)
+//@   assigns s.ch, s.offset, s.rdOffset, s.lineOffset, s.ErrorCount, s.insertSemi, s.unitVal, s.nParen
+//@   ensures [stmts-ordered] stmtsOK(stmts, fileBase(s.file), fileBase(s.file) + len(s.src))
+//@   ensures [ends-with-semicolon] forall k in 0..len(stmts) :: stmts[k].words[len(stmts[k].words)-1].tok == token.SEMICOLON
+//@ loop splitStmts#1
+//@   invariant scanner.inv(s) && fileSize(s.file) == len(s.src) && scanner.unitOK(s) && s.file == old(s.file) && s.src == old(s.src)
+//@   invariant [shape] forall k in 0..len(stmts) :: len(stmts[k].words) > 0 && 0 <= stmts[k].at && stmts[k].at < len(stmts[k].words) && len(stmts[k].words) <= cap(stmts[k].words)
+//@   invariant [semi] forall k in 0..len(stmts) :: stmts[k].words[len(stmts[k].words)-1].tok == token.SEMICOLON
+//@   invariant [first-last] forall k in 0..len(stmts) :: int(stmts[k].words[0].pos) <= int(stmts[k].words[len(stmts[k].words)-1].pos)
+//@   invariant [range] forall k in 0..len(stmts) :: forall j in 0..len(stmts[k].words) ::
+//@            fileBase(s.file) <= int(stmts[k].words[j].pos) && int(stmts[k].words[j].pos) <= fileBase(s.file) + len(s.src)
+//@   invariant [order] forall k in 1..len(stmts) :: int(stmts[k-1].words[len(stmts[k-1].words)-1].pos) <= int(stmts[k].words[0].pos)
+//@   invariant forall k in 0..len(stmt.words) :: fileBase(s.file) <= int(stmt.words[k].pos) && int(stmt.words[k].pos) <= lowWater(s)
+//@   invariant lowWater(s) <= fileBase(s.file) + len(s.src)
+//@   invariant len(stmt.words) > 0 ==> int(stmt.words[0].pos) <= int(stmt.words[len(stmt.words)-1].pos)
+//@   invariant [last-before-current] len(stmts) > 0 ==> int(stmts[len(stmts)-1].words[len(stmts[len(stmts)-1].words)-1].pos) <= (len(stmt.words) > 0 ? int(stmt.words[0].pos) : lowWater(s))
+//@   invariant (cap(stmt.words) == 0 || fresh(stmt.words)) && (cap(stmts) == 0 || fresh(stmts))
+//@   invariant forall k in 0..len(stmts) :: disjoint(stmts[k].words, stmt.words) && allocated(stmts[k].words)
+//@   decreases len(s.src) - s.offset, scanner.mu2(s)
+//@
+//@ # chunk i of rest is src[from(i):from(i+1)] (the last one runs to the end of src); fsum/nsum(k) = total length of the
+//@ # function-declaration / other chunks among the first k
+//@ spec from(rest []aStmt, base int, i int) int := int(rest[i].words[0].pos) - base
+//@ spec bound(rest []aStmt, base int, n int, k int) int := k == len(rest) ? n : from(rest, base, k)
+//@ ufunc clen(rest []aStmt, base int, n int, i int) int
+//@ axiom manual clenDef := forall rest []aStmt :: forall base int :: forall n int :: forall i int :: clen(rest, base, n, i) == bound(rest, base, n, i+1) - from(rest, base, i)
+//@ ufunc fsum(rest []aStmt, base int, n int, k int) int
+//@ ufunc nsum(rest []aStmt, base int, n int, k int) int
+//@ axiom manual sum0 := forall rest []aStmt :: forall base int :: forall n int :: fsum(rest, base, n, 0) == 0 && nsum(rest, base, n, 0) == 0
+//@ axiom manual sumStep := forall rest []aStmt :: forall base int :: forall n int :: forall k int :: k >= 0 ==>
+//@        fsum(rest, base, n, k+1) == fsum(rest, base, n, k) + (isFD(rest[k]) ? clen(rest, base, n, k) : 0) &&
+//@        nsum(rest, base, n, k+1) == nsum(rest, base, n, k) + (isFD(rest[k]) ? 0 : clen(rest, base, n, k))
+//@
+//@ # what RearrangeFuncs computed on the way, for its postcondition: the statements, the index of the first
+//@ # non-declaration, the statements from there on, the file base, the offset of the first moved chunk
+//@ ghost gStmts []aStmt
+//@ ghost gRest []aStmt
+//@ ghost gBase int
+//@ ghost gOff int
+//@ ghost gSplit int
+//@ func RearrangeFuncs
+//@   requires filename == nil || len(filename) > 0
+//@   assigns gStmts, gRest, gBase, gOff, gSplit
+//@   at store stmts#1 set gStmts = stmts
+//@   at store base#1 set gBase = base
+//@   at store off#1 set gOff = off
+//@   at store rest#1 set gRest = rest
+//@   at store rest#1 set gSplit = gSplit + 1
+//@   at store rest#1 assert [split-at-first-non-decl] first >= 0 && !isD(stmts[first]) && (forall k in 0..first :: isD(stmts[k])) && len(rest) == len(stmts) - first &&
+//@            (forall k in 0..len(rest) :: rest[k] == stmts[first+k])
+//@   ensures [total] result1 == nil
+//@   ensures [no-byte-added-or-lost] len(result0) == len(src)
+//@   ensures [all-declarations-source-unchanged] gSplit == old(gSplit) ==> result0 == src && (forall k in 0..len(gStmts) :: isD(gStmts[k]))
+//@   ensures [split-once] gSplit == old(gSplit) || gSplit == old(gSplit) + 1
+//@   ensures [prefix-kept] gSplit != old(gSplit) ==> (forall b in 0..gOff :: result0[b] == src[b])
+//@   ensures [chunk-lengths] gSplit != old(gSplit) ==> (forall i in 0..len(gRest) :: clen(gRest, gBase, len(src), i) == bound(gRest, gBase, len(src), i+1) - from(gRest, gBase, i))
+//@   ensures [functions-first-in-order] gSplit != old(gSplit) ==> (forall i in 0..len(gRest) :: forall q in 0..len(result0) ::
+//@            isFD(gRest[i]) && gOff + fsum(gRest, gBase, len(src), i) <= q && q < gOff + fsum(gRest, gBase, len(src), i) + clen(gRest, gBase, len(src), i) ==>
+//@            result0[q] == src[q - gOff - fsum(gRest, gBase, len(src), i) + from(gRest, gBase, i)])
+//@   ensures [others-follow-in-order] gSplit != old(gSplit) ==> (forall i in 0..len(gRest) :: forall q in 0..len(result0) ::
+//@            !isFD(gRest[i]) && gOff + fsum(gRest, gBase, len(src), len(gRest)) + nsum(gRest, gBase, len(src), i) <= q &&
+//@            q < gOff + fsum(gRest, gBase, len(src), len(gRest)) + nsum(gRest, gBase, len(src), i) + clen(gRest, gBase, len(src), i) ==>
+//@            result0[q] == src[q - gOff - fsum(gRest, gBase, len(src), len(gRest)) - nsum(gRest, gBase, len(src), i) + from(gRest, gBase, i)])
+//@ loop RearrangeFuncs#1
+//@   invariant stmtsOK(rest, base, base + len(src)) && len(rest) > 0 && off == from(rest, base, 0) && (cap(ret) == 0 || fresh(ret)) &&
+//@            gRest == rest && gBase == base && gOff == off && gSplit == old(gSplit) + 1
+//@   invariant [len-funcs] len(ret) == off + fsum(rest, base, len(src), rangeindex+1)
+//@   invariant [telescope] fsum(rest, base, len(src), rangeindex+1) + nsum(rest, base, len(src), rangeindex+1) == bound(rest, base, len(src), rangeindex+1) - off
+//@   invariant [prefix] forall b in 0..off :: ret[b] == src[b]
+//@   invariant [clen-def] forall i in 0..rangeindex+1 :: clen(rest, base, len(src), i) == bound(rest, base, len(src), i+1) - from(rest, base, i)
+//@   invariant [mono] forall i in 0..rangeindex+1 :: fsum(rest, base, len(src), i) >= 0 && clen(rest, base, len(src), i) >= 0 &&
+//@            fsum(rest, base, len(src), i) + (isFD(rest[i]) ? clen(rest, base, len(src), i) : 0) <= fsum(rest, base, len(src), rangeindex+1)
+//@   invariant [func-chunks] forall i in 0..rangeindex+1 :: forall q in 0..len(ret) ::
+//@            isFD(rest[i]) && off + fsum(rest, base, len(src), i) <= q && q < off + fsum(rest, base, len(src), i) + clen(rest, base, len(src), i) ==>
+//@            ret[q] == src[q - off - fsum(rest, base, len(src), i) + from(rest, base, i)]
+//@   use sumStep(rest, base, len(src), rangeindex)
+//@   use sum0(rest, base, len(src))
+//@   use clenDef(rest, base, len(src), rangeindex)
+//@ loop RearrangeFuncs#2
+//@   invariant stmtsOK(rest, base, base + len(src)) && len(rest) > 0 && off == from(rest, base, 0) && (cap(ret) == 0 || fresh(ret)) &&
+//@            gRest == rest && gBase == base && gOff == off && gSplit == old(gSplit) + 1
+//@   invariant [len-others] len(ret) == off + fsum(rest, base, len(src), len(rest)) + nsum(rest, base, len(src), rangeindex+1)
+//@   invariant [telescope] fsum(rest, base, len(src), len(rest)) + nsum(rest, base, len(src), len(rest)) == len(src) - off
+//@   invariant [prefix] forall b in 0..off :: ret[b] == src[b]
+//@   invariant [func-chunks] forall i in 0..len(rest) :: forall q in 0..len(ret) ::
+//@            isFD(rest[i]) && off + fsum(rest, base, len(src), i) <= q && q < off + fsum(rest, base, len(src), i) + clen(rest, base, len(src), i) ==>
+//@            ret[q] == src[q - off - fsum(rest, base, len(src), i) + from(rest, base, i)]
+//@   invariant [clen-def] forall i in 0..len(rest) :: clen(rest, base, len(src), i) == bound(rest, base, len(src), i+1) - from(rest, base, i)
+//@   invariant [fmono] forall i in 0..len(rest) :: fsum(rest, base, len(src), i) >= 0 && clen(rest, base, len(src), i) >= 0 &&
+//@            fsum(rest, base, len(src), i) + (isFD(rest[i]) ? clen(rest, base, len(src), i) : 0) <= fsum(rest, base, len(src), len(rest))
+//@   invariant [nmono] forall i in 0..rangeindex+1 :: nsum(rest, base, len(src), i) >= 0 &&
+//@            nsum(rest, base, len(src), i) + (isFD(rest[i]) ? 0 : clen(rest, base, len(src), i)) <= nsum(rest, base, len(src), rangeindex+1)
+//@   invariant [other-chunks] forall i in 0..rangeindex+1 :: forall q in 0..len(ret) ::
+//@            !isFD(rest[i]) && off + fsum(rest, base, len(src), len(rest)) + nsum(rest, base, len(src), i) <= q &&
+//@            q < off + fsum(rest, base, len(src), len(rest)) + nsum(rest, base, len(src), i) + clen(rest, base, len(src), i) ==>
+//@            ret[q] == src[q - off - fsum(rest, base, len(src), len(rest)) - nsum(rest, base, len(src), i) + from(rest, base, i)]
+//@   use sumStep(rest, base, len(src), rangeindex)
+//@   use sum0(rest, base, len(src))
+//@   use clenDef(rest, base, len(src), rangeindex)
+//@
+//@ ghost gRearranged []byte
+//@ func SourceEx
+//@   requires filename == nil || len(filename) > 0
+//@   assigns gStmts, gRest, gBase, gOff, gSplit, gRearranged
+//@   at call RearrangeFuncs#1 set gRearranged = ret0
+//@   ensures [ok-if-original-formats] fmtOK(src, class) ==> err == nil
+//@   ensures [ok-if-rearranged-formats] !fmtOK(src, class) && fmtOK(gRearranged, class) ==> err == nil
+//@   ensures [fails-only-if-both-fail] err != nil ==> !fmtOK(src, class) && !fmtOK(gRearranged, class)
